@@ -118,7 +118,7 @@ theorem inv_step (s s' : GState) (e : GEv) (hi : Inv s) (hs : gstep s e = some s
         · exact hi.bound
         · exact hi.gated
         · intro h; exact absurd h hc
-  | admit t =>
+  | grant t =>
     simp only [gstep] at hs
     split at hs
     · rename_i hc
@@ -243,8 +243,8 @@ theorem C09_no_leak (cap : Nat) (es : List GEv) (s : GState) (hr : grun (GState.
   rw [hi.slots_eq]; simp [GState.holders, h]
 
 /-- after such a history, N more renders can proceed simultaneously: each arrival is admitted while fewer than N are inside -/
-theorem C09_admit_enabled (s : GState) (t : Nat) (hw : t ∈ s.waiting) (hlt : s.slots < s.cap) :
-    ∃ s', gstep s (.admit t) = some s' := by
+theorem C09_grant_enabled (s : GState) (t : Nat) (hw : t ∈ s.waiting) (hlt : s.slots < s.cap) :
+    ∃ s', gstep s (.grant t) = some s' := by
   simp [gstep, hw, hlt]
 
 /-- **C09 (cancelled while waiting).** A cancelled waiter gets its error, takes no slot and is not inside. -/
@@ -292,7 +292,7 @@ theorem C09_quiescent (s : GState) (hi : Inv s) (hc : s.cap > 0) (hq : s.quiesce
   · omega
 
 /-! non-vacuity: a concrete history with a panic exit and a cancellation -/
-example : (grun (GState.init 1) [.arrive 1, .arrive 2, .arrive 3, .admit 1, .cancel 2, .exit 1 .panic, .admit 3]).map
+example : (grun (GState.init 1) [.arrive 1, .arrive 2, .arrive 3, .grant 1, .cancel 2, .exit 1 .panic, .grant 3]).map
     (fun s => (s.slots, s.inside.map (·.1), s.waiting)) = some (1, [3], []) := by decide
 
 end Pug.Props.C09
